@@ -58,6 +58,8 @@ type Conn struct {
 	readErr  error
 	taken    int
 	eofTaken bool
+	paused   bool
+	gate     *sync.Cond
 	cw       *countWriter
 	sent     []SentRec
 }
@@ -126,6 +128,26 @@ func (b *Broker) Dial(name string) (*Conn, error) {
 	return c, nil
 }
 
+// Pause stops the scripted client from reading: the broker's writeLoop then blocks on its next write to this
+// connection (net.Pipe is synchronous) and further packets pile up in the client's `out` channel. Call only when the
+// broker is quiescent (the reader is then waiting for the first byte of the next packet).
+func (c *Conn) Pause() {
+	c.mu.Lock()
+	c.paused = true
+	c.mu.Unlock()
+	_ = c.c.SetReadDeadline(time.Unix(1, 0)) // wake the blocked read
+}
+
+// Resume lets the reader continue.
+func (c *Conn) Resume() {
+	c.mu.Lock()
+	c.paused = false
+	if c.gate != nil {
+		c.gate.Broadcast()
+	}
+	c.mu.Unlock()
+}
+
 // StartReader begins recording packets from the broker; call after the protocol version is known.
 func (c *Conn) StartReader() {
 	go c.readLoop()
@@ -133,9 +155,24 @@ func (c *Conn) StartReader() {
 
 func (c *Conn) readLoop() {
 	br := bufio.NewReader(c.c)
+	c.mu.Lock()
+	c.gate = sync.NewCond(&c.mu)
+	c.mu.Unlock()
 	for {
+		c.mu.Lock()
+		for c.paused {
+			c.gate.Wait()
+		}
+		c.mu.Unlock()
+		_ = c.c.SetReadDeadline(time.Time{})
 		p, err := mqttcli.Read(br, c.Version == packets.Version5)
 		c.mu.Lock()
+		if err != nil && c.paused {
+			if ne, ok := err.(net.Error); ok && ne.Timeout() {
+				c.mu.Unlock()
+				continue // interrupted by Pause while waiting for the next packet
+			}
+		}
 		if err != nil {
 			c.eof = true
 			c.readErr = err
